@@ -112,11 +112,12 @@ mod imp {
         pub prefix: Option<&'static str>,
         pub gl: Vec<Label>,
     }
-    pub fn any_cfg(lo: usize, hi: usize) -> Cfg {
+    /// everything concrete except the payload-size limit (symbolic in [lo, hi])
+    pub fn any_cfg(lo: usize, hi: usize, flags: usize) -> Cfg {
         let max: usize = nd::any();
         nd::assume(max >= lo && max <= hi);
-        let gl = if nd::any::<bool>() { vec![Label::from_static_parts("g", "")] } else { vec![] };
-        Cfg { lp: nd::any(), max, prefix: if nd::any::<bool>() { Some("pp") } else { None }, gl }
+        let gl = if flags & 4 != 0 { vec![Label::from_static_parts("g", "")] } else { vec![] };
+        Cfg { lp: flags & 1 != 0, max, prefix: if flags & 2 != 0 { Some("pp") } else { None }, gl }
     }
 
     fn build(parts: &[&[u8]]) -> ([u8; 48], usize) {
@@ -163,13 +164,9 @@ mod imp {
         pub val: &'static str,
         pub written: bool,
     }
-    pub fn write_scalar(w: &mut Writer, cfg: &Cfg) -> Exp {
-        let ki = nd::below(2);
+    pub fn write_scalar(w: &mut Writer, cfg: &Cfg, ki: usize, ts: Option<usize>, vi: usize, is_counter: bool) -> Exp {
         let (name, labels, tags) = KEYS[ki];
         let key = Key::from_static_labels(name, labels);
-        let ts = if nd::any::<bool>() { Some(nd::below(4)) } else { None };
-        let vi = nd::below(4);
-        let is_counter: bool = nd::any();
         let (pw, pd) = if is_counter {
             w.write_counter(&key, INTS[vi].0, ts.map(|t| INTS[t].0), cfg.prefix, &cfg.gl)
         } else {
@@ -194,13 +191,14 @@ mod imp {
     }
 
     /// two scalar writes, a drain, a third write and a second drain (flush cycle), any of which may be rejected
-    pub fn scalars(lo: usize, hi: usize) {
-        let cfg = any_cfg(lo, hi);
+    pub fn scalars(lo: usize, hi: usize, flags: usize) {
+        let cfg = any_cfg(lo, hi, flags);
         let mut w = Writer::new(cfg.max, cfg.lp);
-        let e1 = write_scalar(&mut w, &cfg);
-        let e2 = write_scalar(&mut w, &cfg);
-        assert!(e1.written == fits(&e1, &cfg), "written_iff_it_fits");
-        assert!(e2.written == fits(&e2, &cfg), "written_iff_it_fits");
+        // long metric first (rejected for small limits), then a short one; both concrete
+        let e1 = write_scalar(&mut w, &cfg, 1, Some(3), 3, true);
+        let e2 = write_scalar(&mut w, &cfg, 0, None, 1, false);
+        if e1.written { assert!(fits(&e1, &cfg), "written_only_if_it_fits"); }
+        if e2.written { assert!(fits(&e2, &cfg), "written_only_if_it_fits"); }
         let o = drain(&mut w);
         let expect_n = e1.written as usize + e2.written as usize;
         assert!(o.n == expect_n, "every_written_point_is_in_exactly_one_payload");
@@ -216,7 +214,7 @@ mod imp {
         }
         cover!(!e1.written && e2.written, "rejected then accepted reachable");
         // second flush cycle on the same writer
-        let e3 = write_scalar(&mut w, &cfg);
+        let e3 = write_scalar(&mut w, &cfg, 0, Some(1), 2, true);
         let o2 = drain(&mut w);
         assert!(o2.n == e3.written as usize, "second_cycle_has_only_its_own_payloads");
         if e3.written {
@@ -227,24 +225,24 @@ mod imp {
     }
 
     /// histogram / distribution with 3 symbolic values, optional sample rate; then a scalar in the same cycle
-    pub fn hist(lo: usize, hi: usize) {
-        let cfg = any_cfg(lo, hi);
+    pub fn hist(lo: usize, hi: usize, flags: usize) {
+        let cfg = any_cfg(lo, hi, flags);
         let mut w = Writer::new(cfg.max, cfg.lp);
-        let ki = nd::below(2);
+        let ki = (flags >> 3) & 1;
         let (name, labels, tags) = KEYS[ki];
         let key = Key::from_static_labels(name, labels);
-        let nv = nd::below(4);
-        let vi = [nd::below(4), nd::below(4), nd::below(4)];
+        let nv = 3;
+        let vi = [1usize, 3, 2];      // "1.0", "333.25", "22.5": different lengths
         let vals = [FLOATS[vi[0]].0, FLOATS[vi[1]].0, FLOATS[vi[2]].0];
         let strs = [FLOATS[vi[0]].1, FLOATS[vi[1]].1, FLOATS[vi[2]].1];
-        let rate = if nd::any::<bool>() { Some(1.0f64) } else { None };
-        let dist: bool = nd::any();
+        let rate = if flags & 16 != 0 { Some(1.0f64) } else { None };
+        let dist: bool = flags & 32 != 0;
         let (pw, pd) = if dist {
             w.write_distribution(&key, &vals[..nv], rate, cfg.prefix, &cfg.gl)
         } else {
             w.write_histogram(&key, &vals[..nv], rate, cfg.prefix, &cfg.gl)
         };
-        let after = write_scalar(&mut w, &cfg);
+        let after = write_scalar(&mut w, &cfg, 0, None, 1, true);
         let o = drain(&mut w);
         let fname = fullname(&cfg, name);
         let tr = trailer(&cfg, tags, rate.map(|_| "1.0"), None);
@@ -285,25 +283,77 @@ mod imp {
 }
 #[cfg(not(metrics_verif))]
 mod imp {
-    pub fn scalars(_a: usize, _b: usize) { panic!("built without --cfg metrics_verif") }
-    pub fn hist(_a: usize, _b: usize) { panic!("built without --cfg metrics_verif") }
+    pub fn scalars(_a: usize, _b: usize, _f: usize) { panic!("built without --cfg metrics_verif") }
+    pub fn hist(_a: usize, _b: usize, _f: usize) { panic!("built without --cfg metrics_verif") }
 }
 
 harnesses! {
     #[cfg_attr(kani, kani::unwind(49))]
     #[cfg_attr(kani, kani::stub(itoa::Buffer::format, itoa_stub))]
     #[cfg_attr(kani, kani::stub(ryu::Buffer::format, ryu_stub))]
-    fn c09_scalars_small() { imp::scalars(0, 12) }
+    fn c09_scalars_f0() { imp::scalars(0, 40, 0) }
     #[cfg_attr(kani, kani::unwind(49))]
     #[cfg_attr(kani, kani::stub(itoa::Buffer::format, itoa_stub))]
     #[cfg_attr(kani, kani::stub(ryu::Buffer::format, ryu_stub))]
-    fn c09_scalars_mid() { imp::scalars(13, 40) }
+    fn c09_scalars_f1() { imp::scalars(0, 40, 1) }
     #[cfg_attr(kani, kani::unwind(49))]
     #[cfg_attr(kani, kani::stub(itoa::Buffer::format, itoa_stub))]
     #[cfg_attr(kani, kani::stub(ryu::Buffer::format, ryu_stub))]
-    fn c09_hist_small() { imp::hist(0, 16) }
+    fn c09_scalars_f2() { imp::scalars(0, 40, 2) }
     #[cfg_attr(kani, kani::unwind(49))]
     #[cfg_attr(kani, kani::stub(itoa::Buffer::format, itoa_stub))]
     #[cfg_attr(kani, kani::stub(ryu::Buffer::format, ryu_stub))]
-    fn c09_hist_mid() { imp::hist(17, 44) }
+    fn c09_scalars_f3() { imp::scalars(0, 40, 3) }
+    #[cfg_attr(kani, kani::unwind(49))]
+    #[cfg_attr(kani, kani::stub(itoa::Buffer::format, itoa_stub))]
+    #[cfg_attr(kani, kani::stub(ryu::Buffer::format, ryu_stub))]
+    fn c09_scalars_f4() { imp::scalars(0, 40, 4) }
+    #[cfg_attr(kani, kani::unwind(49))]
+    #[cfg_attr(kani, kani::stub(itoa::Buffer::format, itoa_stub))]
+    #[cfg_attr(kani, kani::stub(ryu::Buffer::format, ryu_stub))]
+    fn c09_scalars_f5() { imp::scalars(0, 40, 5) }
+    #[cfg_attr(kani, kani::unwind(49))]
+    #[cfg_attr(kani, kani::stub(itoa::Buffer::format, itoa_stub))]
+    #[cfg_attr(kani, kani::stub(ryu::Buffer::format, ryu_stub))]
+    fn c09_scalars_f6() { imp::scalars(0, 40, 6) }
+    #[cfg_attr(kani, kani::unwind(49))]
+    #[cfg_attr(kani, kani::stub(itoa::Buffer::format, itoa_stub))]
+    #[cfg_attr(kani, kani::stub(ryu::Buffer::format, ryu_stub))]
+    fn c09_scalars_f7() { imp::scalars(0, 40, 7) }
+    #[cfg_attr(kani, kani::unwind(49))]
+    #[cfg_attr(kani, kani::stub(itoa::Buffer::format, itoa_stub))]
+    #[cfg_attr(kani, kani::stub(ryu::Buffer::format, ryu_stub))]
+    fn c09_hist_f0() { imp::hist(0, 48, 0) }
+    #[cfg_attr(kani, kani::unwind(49))]
+    #[cfg_attr(kani, kani::stub(itoa::Buffer::format, itoa_stub))]
+    #[cfg_attr(kani, kani::stub(ryu::Buffer::format, ryu_stub))]
+    fn c09_hist_f1() { imp::hist(0, 48, 1) }
+    #[cfg_attr(kani, kani::unwind(49))]
+    #[cfg_attr(kani, kani::stub(itoa::Buffer::format, itoa_stub))]
+    #[cfg_attr(kani, kani::stub(ryu::Buffer::format, ryu_stub))]
+    fn c09_hist_f3() { imp::hist(0, 48, 3) }
+    #[cfg_attr(kani, kani::unwind(49))]
+    #[cfg_attr(kani, kani::stub(itoa::Buffer::format, itoa_stub))]
+    #[cfg_attr(kani, kani::stub(ryu::Buffer::format, ryu_stub))]
+    fn c09_hist_f7() { imp::hist(0, 48, 7) }
+    #[cfg_attr(kani, kani::unwind(49))]
+    #[cfg_attr(kani, kani::stub(itoa::Buffer::format, itoa_stub))]
+    #[cfg_attr(kani, kani::stub(ryu::Buffer::format, ryu_stub))]
+    fn c09_hist_f10() { imp::hist(0, 48, 10) }
+    #[cfg_attr(kani, kani::unwind(49))]
+    #[cfg_attr(kani, kani::stub(itoa::Buffer::format, itoa_stub))]
+    #[cfg_attr(kani, kani::stub(ryu::Buffer::format, ryu_stub))]
+    fn c09_hist_f15() { imp::hist(0, 48, 15) }
+    #[cfg_attr(kani, kani::unwind(49))]
+    #[cfg_attr(kani, kani::stub(itoa::Buffer::format, itoa_stub))]
+    #[cfg_attr(kani, kani::stub(ryu::Buffer::format, ryu_stub))]
+    fn c09_hist_f17() { imp::hist(0, 48, 17) }
+    #[cfg_attr(kani, kani::unwind(49))]
+    #[cfg_attr(kani, kani::stub(itoa::Buffer::format, itoa_stub))]
+    #[cfg_attr(kani, kani::stub(ryu::Buffer::format, ryu_stub))]
+    fn c09_hist_f35() { imp::hist(0, 48, 35) }
+    #[cfg_attr(kani, kani::unwind(49))]
+    #[cfg_attr(kani, kani::stub(itoa::Buffer::format, itoa_stub))]
+    #[cfg_attr(kani, kani::stub(ryu::Buffer::format, ryu_stub))]
+    fn c09_hist_f63() { imp::hist(0, 48, 63) }
 }
